@@ -221,7 +221,31 @@ def run(ctx):
         ctx.sample(o, limit=9)
     for t in sorted(set(tops3)):
         ctx.violation("C20/race/" + t.split("@")[-1], "data race reported by the race detector in direct concurrent use of the runtime helpers (%d reports)" % nrace3, {"top_frame": t, "phase": "helpers"})
-    ctx.cov["race_reports"] = {"schedules": nrace, "load": nrace2, "helpers": nrace3}
+    # 5. goa.SkipResponseWriter (adapter shared by the handler goroutine and a writer goroutine)
+    ctx.mc("mc/MC_SkipWriter", label="MC SkipWriter (safety + NoLeak)")
+    ctx.mc_expect_violation("mc/MC_SkipWriter", consts={"Deviations": '{"skipwriter.writer_never_unblocked"}'}, label="MC dev SkipWriter")
+    sb = ctx.gobuild("drivers/skipwriter", race=True)
+    sd = ctx.subdir("skipwriter")
+    sprefix = os.path.join(sd, "race-skw")
+    env = dict(ctx.goenv(), GORACE="log_path=%s exitcode=0 halt_on_error=0" % sprefix)
+    tp2 = os.path.join(sd, "trace.ndjson")
+    p = subprocess.run([sb, "-out", tp2, "-seed", str(ctx.seed), "-random", "300" if quick else "3000"], cwd=sd, env=env,
+                       stdout=subprocess.PIPE, stderr=subprocess.PIPE, text=True, timeout=900)
+    if p.returncode != 0:
+        raise core.Infra("skipwriter driver failed: %s" % p.stderr[-2000:])
+    nrace4, tops4 = race_reports(sprefix)
+    ok, hwm, r = ctx.trace_validate("trace/Trace_SkipWriter", "trace/Trace_SkipWriter.cfg", tp2, label="trace-skipwriter")
+    lines2 = [json.loads(l) for l in open(tp2)]
+    nsc = sum(1 for l in lines2 if l["ev"] == "reset")
+    ctx.cov["traces_validated_against_impl"] += nsc
+    ctx.cov["evaluations"] += nsc
+    if not ok:
+        bad = lines2[hwm - 1] if hwm else None
+        ctx.violation("C20/skipwriter/trace-rejected/%s" % (bad or {}).get("ev"), "Trace_SkipWriter rejected line %s: %s" % (hwm, bad),
+                      {"line": bad, "context": lines2[max(0, (hwm or 1) - 8):(hwm or 1)]})
+    for t in sorted(set(tops4)):
+        ctx.violation("C20/race/" + t.split("@")[-1], "data race reported by the race detector in SkipResponseWriter use (%d reports)" % nrace4, {"top_frame": t, "phase": "skipwriter"})
+    ctx.cov["race_reports"] = {"schedules": nrace, "load": nrace2, "helpers": nrace3, "skipwriter": nrace4}
     ctx.cov["distinct_nontrivial"] = len(nontrivial)
     if ctx.selftest or not quick:
         selftest(ctx, trace)
